@@ -28,7 +28,7 @@ func encodeCases(e *Env, t *schema.Type) []ecase {
 	if ctor := bind.Ctors[t.QName]; ctor != nil {
 		cs = append(cs, ecase{"constructor-result", ctor()})
 	}
-	n := e.N(50, 1000)
+	n := e.N(200, 5000)
 	for ci, o := range e.caseOpts(t, n, 2, true, false) {
 		if ci >= n {
 			o.NoNilBody = false
@@ -143,14 +143,24 @@ func c17Child(e *Env, ca childArgs) {
 			}
 			summary := val.Summary(c.msg, 400)
 			h := val.Hash(c.msg)
-			buf := new(bytes.Buffer)
-			log.begin(n, fmt.Sprintf("%s#%d %s value=%s", t.QName, ci, c.kind, summary))
+			// destination buffer: fresh, or one of the histories H2..H7 (earlier frames, partly consumed,
+			// garbage in spare capacity, nearly full) - a panic is a panic wherever the frame starts
+			hk := ci % 7
+			room := 0
+			if fi := frameOf(t); fi != nil {
+				room = fi.hdr
+			}
+			buf, _ := mkHistory(hk, gen.NewRng(e.Seed, "C17-hist", t.QName, ci), bytes.Repeat([]byte{0xAB}, 300), room)
+			if hk == 2 {
+				kinds["buffer:earlier-content-near-capacity"]++
+			}
+			log.begin(n, fmt.Sprintf("%s#%d %s buffer=%s value=%s", t.QName, ci, c.kind, histNames[hk], summary))
 			err, p := LibEncode(c.msg, buf)
 			log.end(n)
 			r.Evals(1)
 			kinds[c.kind]++
 			if p != nil {
-				r.Violate("C17/encode-panic/"+t.QName+"/"+strings.SplitN(c.kind, ":", 2)[0], "C17/encode-panic/"+t.QName, map[string]any{"type": t.QName, "case": ci, "kind": c.kind, "value": summary, "panic": p.Value, "stack": p.Stack})
+				r.Violate("C17/encode-panic/"+t.QName+"/"+strings.SplitN(c.kind, ":", 2)[0], "C17/encode-panic/"+t.QName, map[string]any{"type": t.QName, "case": ci, "kind": c.kind, "buffer_history": histNames[ci%7], "value": summary, "panic": p.Value, "stack": p.Stack})
 				continue
 			}
 			if err != nil {
@@ -179,7 +189,7 @@ func c17(e *Env) {
 		return
 	}
 	r := e.R
-	r.Rule("every type × {zero value, constructor result, arbitrary values (numbers of any bit pattern, text of any length incl. over-long and all-pad, lists of 0..17 elements, nil nested parts, nil/mismatched bodies; thorough: 70 000-element lists), every registered key with a nil body/extension, unregistered keys with and without a body, each nested pointer part nil in turn}; values with nil list elements or typed-nil bodies are excluded, as the property says. distinct_nontrivial = distinct structural hashes of the values encoded")
+	r.Rule("every type × {zero value, constructor result, arbitrary values (numbers of any bit pattern, text of any length incl. over-long and all-pad, lists of 0..17 elements, nil nested parts, nil/mismatched bodies; thorough: 70 000-element lists), every registered key with a nil body/extension, unregistered keys with and without a body, each nested pointer part nil in turn} × destination buffer history H1..H7 (fresh, random content, earlier frames filling most of the capacity, partly consumed, drained, garbage in spare capacity, header-sized spare capacity); values with nil list elements or typed-nil bodies are excluded, as the property says. distinct_nontrivial = distinct structural hashes of the values encoded")
 	r.Explain("Oracle: Encode returns normally — nil error with bytes appended, or a non-nil error; a recovered panic or the death of the (child) process is a violation, with the pre-logged in-flight value as witness.")
 	r.Assume("values not generated are not covered")
 	outs := runChildren(e, e.Workers, 300*time.Second)
